@@ -419,6 +419,9 @@ def check_c02(tier):
     # circRNA backbones: every CIRC-labelled peptide is a product of the circle (CircTrace clause circ_peptides_sound)
     from checks import c17
     c17.check_c17(tier, rep=rep, only='circ_peptides_sound')
+    # fusion backbones: every FUSION-labelled peptide is a product of the fused sequence (FusionTrace clause peptides_from_fused_sequence)
+    from checks import c15
+    c15.check_c15(tier, rep=rep, only='peptides_from_fused_sequence')
     return rep.finish()
 
 
